@@ -23,6 +23,8 @@ mod performance_mark;
 pub mod rules;
 pub mod swc_util;
 pub mod tags;
+#[cfg(feature = "verif_hooks")]
+pub mod verif_hooks;
 
 pub use deno_ast::view::Program;
 pub use deno_ast::view::ProgramRef;
